@@ -357,7 +357,8 @@ def gen_cubic(rng: random.Random, tier: str) -> dict:
     center = rng.random() < 0.4
     if center:
         kw["constraints"] = "center"
-    if rng.random() < 0.6:
+    cons_m = rng.randint(1, 3) if not center and rng.random() < 0.15 else 0  # an explicit constraint matrix with this many rows
+    if rng.random() < 0.6 and not cons_m:
         kw["df"] = rng.randint(2, 6)  # (2 = no interior knot for the natural spline, one for the cyclic one)
     else:
         lo, hi = float(xa.min()), float(xa.max())
@@ -368,6 +369,10 @@ def gen_cubic(rng: random.Random, tier: str) -> dict:
         lb, ub = float(np.quantile(xa, qlo)), float(np.quantile(xa, qhi))
         if lb < ub and ("knots" not in kw or all(lb < q < ub for q in kw["knots"])):
             kw["lower_bound"], kw["upper_bound"] = lb, ub
+    if cons_m:
+        q = len(kw["knots"]) + (1 if cyclic else 2)  # free basis functions: one per knot (the cyclic basis identifies the two ends)
+        cons_m = min(cons_m, q - 1)
+        kw["constraints"] = [[round(rng.uniform(-1, 1), 3) for _ in range(q)] for _ in range(cons_m)]
     ext = rng.choice(["extend", "extend", "clip", "na", "zero", "raise"])
     kw["extrapolation"] = ext
     lo, hi = float(xa.min()), float(xa.max())
@@ -390,6 +395,8 @@ def judge_cubic(case) -> Outcome:
     cyclic = fn == "cc"
     ext = kw["extrapolation"]
     center = kw.get("constraints") == "center"
+    explicit = kw.get("constraints") if isinstance(kw.get("constraints"), list) else None
+    ncons = 1 if center else len(explicit) if explicit else 0
     out.sig = (fn, case["kind"], "df" in kw, len(kw.get("knots", [])), center, ext, "lower_bound" in kw, case["path"], bool(case.get("as_int")))
     x = np.array(case["x"], float)
     asint = (lambda a: np.asarray(a).astype("int64")) if case.get("as_int") else (lambda a: a)
@@ -428,8 +435,11 @@ def judge_cubic(case) -> Outcome:
     nfree = K - 1 if cyclic else K
     if "df" in kw and M.shape[1] != kw["df"]:
         out.fail("c12.df_columns", f"{tag}: {M.shape[1]} columns for df={kw['df']}")
-    if M.shape[1] != nfree - (1 if center else 0):
-        out.fail("c12.cubic_columns", f"{tag}: {M.shape[1]} columns for {K} knots (cyclic={cyclic}, centered={center})")
+    if explicit and len(explicit[0]) != nfree:  # (my constraint matrix does not fit the recorded knots: bounds moved them)
+        out.decided = False
+        return out
+    if M.shape[1] != nfree - ncons:
+        out.fail("c12.cubic_columns", f"{tag}: {M.shape[1]} columns for {K} knots (cyclic={cyclic}, constraints={ncons})")
         return out
     card = cyclic_cardinal if cyclic else natural_cardinal
 
@@ -445,7 +455,7 @@ def judge_cubic(case) -> Outcome:
         return R, oob
 
     scale = max(1.0, float(np.nanmax(np.abs(M))) if M.size else 1.0)
-    if not center:
+    if not ncons:
         R, _ = expected_free(x)
         if not np.allclose(M, R, atol=1e-7 * scale, rtol=1e-6, equal_nan=True):
             bad = np.argwhere(~np.isclose(M, R, atol=1e-7 * scale, rtol=1e-6, equal_nan=True))
@@ -465,7 +475,7 @@ def judge_cubic(case) -> Outcome:
             out.fail("c12.reuse_raised", f"{tag} at knots: {type(e).__name__}: {str(e)[:200]}")
     else:
         inb = ~np.isnan(M).any(axis=1)
-        if ext in ("extend", "clip", "raise", "na", "zero"):  # (zeroed out-of-range rows count as zeros)
+        if center and ext in ("extend", "clip", "raise", "na", "zero"):  # (zeroed out-of-range rows count as zeros)
             means = M[inb].mean(axis=0)
             if np.abs(means).max() > 1e-8 * scale:
                 out.fail("c12.centering", f"{tag}: column means on the training data {means.tolist()} are not zero")
@@ -480,6 +490,13 @@ def judge_cubic(case) -> Outcome:
             resid = M[ok_rows] - Q @ (Q.T @ M[ok_rows])
             if np.abs(resid).max() > 1e-6 * scale:
                 out.fail("c12.centering_span", f"{tag}: centred columns leave the span of the spline basis by {np.abs(resid).max():.2e}")
+            if explicit and np.linalg.matrix_rank(R[ok_rows]) == nfree:
+                # columns = free basis times Z with C @ Z = 0: recover Z and test the constraints the caller gave
+                Z, *_ = np.linalg.lstsq(R[ok_rows], M[ok_rows], rcond=None)
+                viol = float(np.abs(np.asarray(explicit) @ Z).max()) if Z.size else 0.0
+                if viol > 1e-6 * max(1.0, float(np.abs(Z).max()) if Z.size else 1.0):
+                    out.fail("c12.constraints_not_absorbed", f"{tag}: the columns are B @ Z with |C @ Z| up to {viol:.2e} for the given constraint matrix C")
+                out.see("explicit_constraints_checked")
     # state reuse on fresh points
     xn = np.array(case["xnew"], float)
     if ext == "raise":
@@ -494,7 +511,7 @@ def judge_cubic(case) -> Outcome:
             Mn = call_spline(case, fn, asint(xn), st3, kw3)
         if list(st3["knots"]) != list(st["knots"]) or st3.get("lower_bound") != st.get("lower_bound") or st3.get("upper_bound") != st.get("upper_bound"):
             out.fail("c12.state_retrained", f"{tag}: knots / bounds changed on reuse")
-        if not center:
+        if not ncons:
             Rn, _ = expected_free(xn)
             if Mn.shape != Rn.shape or not np.allclose(Mn, Rn, atol=1e-7 * max(1.0, float(np.nanmax(np.abs(Rn)))), rtol=1e-6, equal_nan=True):
                 out.fail("c12.cubic_values", f"{tag} [reuse]: new points {xn[:3].tolist()} give {Mn[:3].tolist()} expected {Rn[:3].tolist()}")
